@@ -5,6 +5,7 @@ package server
 // real PublicKeyCallback (files in ./cache/<user>.authorized_keys) to show that a grant never influences a later one.
 
 import (
+	"time"
 	"crypto/ecdsa"
 	"crypto/ed25519"
 	"crypto/elliptic"
@@ -164,6 +165,7 @@ func TestC09Keys(t *testing.T) {
 		fa, fb := well[rng.Intn(len(well))], well[rng.Intn(len(well))]
 		os.WriteFile("cache/alice.authorized_keys", c09Render(fa.File, keys, true, rng), 0644)
 		os.WriteFile("cache/bob.authorized_keys", c09Render(fb.File, keys, true, rng), 0644)
+		cur := map[string][]string{"alice": fa.File, "bob": fb.File}
 		listed := map[string]map[string]bool{"alice": {}, "bob": {}}
 		for _, k := range fa.Ref {
 			listed["alice"][k] = true
@@ -174,6 +176,37 @@ func TestC09Keys(t *testing.T) {
 		for h := 0; h < 12; h++ {
 			hist := []string{}
 			for step := 0; step < 3; step++ {
+				// between two logins the administrator may replace a user's file: plainly, or the way a restore / a
+				// timestamp-preserving sync does it (new content, old or older modification time)
+				if step > 0 && rng.Intn(3) == 0 {
+					u := []string{"alice", "bob"}[rng.Intn(2)]
+					nf := well[rng.Intn(len(well))]
+					path := "cache/" + u + ".authorized_keys"
+					st, _ := os.Stat(path)
+					how := rng.Intn(3)
+					switch how {
+					case 0:
+						os.WriteFile(path, c09Render(nf.File, keys, true, rng), 0644)
+					case 1:
+						os.WriteFile(path, c09Render(nf.File, keys, true, rng), 0644)
+						if st != nil {
+							os.Chtimes(path, st.ModTime(), st.ModTime())
+						}
+					default:
+						os.WriteFile(path+".new", c09Render(nf.File, keys, true, rng), 0644)
+						if st != nil {
+							old := st.ModTime().Add(-time.Hour)
+							os.Chtimes(path+".new", old, old)
+						}
+						os.Rename(path+".new", path)
+					}
+					cur[u] = nf.File
+					listed[u] = map[string]bool{}
+					for _, k := range nf.Ref {
+						listed[u][k] = true
+					}
+					hist = append(hist, fmt.Sprintf("rewrite(%s,%d):%v", u, how, nf.File))
+				}
 				who := []string{"alice", "bob"}[rng.Intn(2)]
 				k := []string{"A", "B", "C"}[rng.Intn(3)]
 				hist = append(hist, who+":"+k)
@@ -181,7 +214,7 @@ func TestC09Keys(t *testing.T) {
 				perm, err := PublicKeyCallback(c09Meta{who, fmt.Sprintf("127.0.0.1:%d", 4000+rng.Intn(1000))}, keys[k])
 				granted := err == nil && perm != nil
 				if granted != listed[who][k] && len(hbads) < 50 {
-					hbads = append(hbads, hbad{fa.File, fb.File, append([]string{}, hist...), step, granted, listed[who][k]})
+					hbads = append(hbads, hbad{cur["alice"], cur["bob"], append([]string{}, hist...), step, granted, listed[who][k]})
 				}
 			}
 		}
